@@ -105,6 +105,31 @@ Proof.
   apply h_wr_dst_any; [lia|]. unfold lenZ in *. lia.
 Qed.
 
+(* with a cryptex profile in the extension header the RFC 6904 step only reads: it
+   refuses the profile (parse_err) and writes nothing *)
+Definition cryptex_profile (pkt : bytes) : Prop :=
+  be16 pkt (zn (hdr_len pkt)) = cryptex_one_byte_profile_c \/ be16 pkt (zn (hdr_len pkt)) = cryptex_two_byte_profile_c.
+Lemma h_process_xtn_cx (K : bytes -> Prop) st pkt xcs :
+  (forall dd, lenZ dd = lenZ d0 -> K dd -> slice (zn (hdr_len pkt)) 4 dd = slice (zn (hdr_len pkt)) 4 pkt) ->
+  hdr_len pkt + xtn_len pkt <= lenZ d0 -> cryptex_profile pkt ->
+  hoare (I K) (process_xtn st pkt xcs) (fun _ => I Kany) NoOob.
+Proof.
+  intros HK HB HP. pose proof (hdr_cc_range pkt) as CC. pose proof (hdr_len_eq pkt) as HLn.
+  pose proof (xtn_len_ge pkt) as XL.
+  unfold process_xtn.
+  eapply h_bind; [apply h_rd_dst; lia|intros h]. apply h_pure; intros (dd & Kdd & Ldd & ->).
+  change (zn 4) with 4%nat. rewrite (HK dd Ldd Kdd).
+  assert (EN : be16 (slice (zn (hdr_len pkt)) 4 pkt) 2 * 4 = xtn_len pkt - 4).
+  { rewrite be16_slice4. unfold xtn_len. replace (zn (hdr_len pkt + 2)) with (zn (hdr_len pkt) + 2)%nat by (unfold zn; lia). lia. }
+  rewrite EN. rewrite be16_slice4_0.
+  eapply h_bind; [apply h_rd_dst; lia|intros d]. apply h_pure; intros _.
+  destruct (be16 pkt (zn (hdr_len pkt)) =? xtn_hdr_one_byte_profile_c) eqn:E1.
+  { exfalso. destruct HP as [P|P]; rewrite P in E1; vm_compute in E1; discriminate. }
+  destruct (Z.land (be16 pkt (zn (hdr_len pkt))) 65520 =? xtn_hdr_two_byte_profile_c) eqn:E2.
+  { exfalso. destruct HP as [P|P]; rewrite P in E2; vm_compute in E2; discriminate. }
+  hexit.
+Qed.
+
 Lemma h_cryptex_adjust (K : bytes -> Prop) pkt :
   hdr_len pkt + 4 <= C -> hoare (I K) (cryptex_adjust pkt) (fun _ => I Kany) NoOob.
 Proof.
@@ -281,11 +306,11 @@ Proof.
 Qed.
 
 (* ---- srtp_unprotect ---- *)
-(* the one place where *out_len may be smaller than what the code touches: a cryptex stream
-   processed in place (buffer shuffles up to the end of the extension header), or out of
-   place with header-extension encryption configured as well *)
+(* what is asked of cryptex streams: in place *out_len covers the input; out of place with an
+   RFC 6904 cipher the destination block is as long as the input *)
 Hypothesis SPx : forall st, SP st -> s_cryptex st = true ->
-  (al = true \/ Exists (fun k => k_xtn_c k <> None) (s_keys st)) -> L <= C.
+  (al = true -> L <= C) /\
+  (al = false -> Exists (fun k => k_xtn_c k <> None) (s_keys st) -> L <= lenZ d0).
 
 Definition upre_ok (u : upre) : Prop :=
   u_pkt u = take (zn L) (if al then d0 else src) /\
@@ -294,7 +319,9 @@ Definition upre_ok (u : upre) : Prop :=
   u_enc_start u + u_enc_len u <= L /\ u_enc_start u + u_enc_len u <= C /\
   u_inplace u = u_inuse u && al /\
   (u_inuse u = true -> hdr_x (u_pkt u) = 1 /\ hdr_len (u_pkt u) + 4 <= C) /\
-  (hdr_x (u_pkt u) = 1 -> k_xtn_c (u_k u) <> None -> hdr_len (u_pkt u) + xtn_len (u_pkt u) <= C).
+  (hdr_x (u_pkt u) = 1 -> k_xtn_c (u_k u) <> None ->
+   hdr_len (u_pkt u) + xtn_len (u_pkt u) <= C \/
+   (hdr_len (u_pkt u) + xtn_len (u_pkt u) <= lenZ d0 /\ cryptex_profile (u_pkt u))).
 
 Lemma u64_neg x : - 9223372036854775808 <= x < 0 -> u64 x = x + 18446744073709551616.
 Proof. intros H. unfold u64. symmetry. apply Z.mod_unique with (q := -1); lia. Qed.
@@ -331,16 +358,22 @@ Proof.
   destruct (SP_key SP SPwf _ _ Hst Hk) as (M & U & MK & TA & _).
   pose proof (akey_prefix_le _ TA) as PL. pose proof TA as [T _]. rewrite max_tag_value in T.
   (* cryptex in use? *)
-  apply h_bind with (R := fun (iu : bool) w => (iu = true -> s_cryptex st = true /\ hdr_x pkt = 1) /\ I (eq d0) w).
+  apply h_bind with (R := fun (iu : bool) w => (iu = true -> s_cryptex st = true /\ hdr_x pkt = 1 /\ cryptex_profile pkt) /\ I (eq d0) w).
   { destruct (s_cryptex st && (hdr_x pkt =? 1)) eqn:EC.
     - apply andb_true_iff in EC. destruct EC as [EC1 EC2]. apply Z.eqb_eq in EC2. specialize (X4 EC2).
-      eapply h_bind; [apply h_rd_src; lia|intros h]. apply h_pure; intros _.
-      apply h_ret. intros w HI. split; [auto|exact HI].
+      eapply h_bind; [apply h_rd_src; lia|intros h]. apply h_pure; intros (dd & <- & _ & ->).
+      apply h_ret. intros w HI. split; [|exact HI]. intros HP. split; [exact EC1|]. split; [exact EC2|].
+      change (zn 4) with 4%nat in HP. rewrite be16_slice4_0 in HP.
+      match type of HP with context [be16 ?X (zn (hdr_len pkt))] =>
+        pose proof (be16_take X (zn L) (zn (hdr_len pkt)) ltac:(unfold zn in *; lia)) as EB;
+        rewrite <- EB in HP; replace (take (zn L) X) with pkt in HP by exact Hp end.
+      apply orb_true_iff in HP. unfold cryptex_profile.
+      destruct HP as [HP|HP]; apply Z.eqb_eq in HP; auto.
     - apply h_ret. intros w HI. split; [discriminate|exact HI]. }
   intros inuse. apply h_pure; intros IU.
   apply h_bind with (R := fun (xl : Z) w => (inuse = true -> xl = xtn_len pkt) /\ I (eq d0) w).
   { destruct inuse; [|apply h_ret; intros w HI; split; [discriminate|exact HI]].
-    destruct (IU eq_refl) as [_ X]. specialize (X4 X).
+    destruct (IU eq_refl) as (_ & X & _). specialize (X4 X).
     eapply h_bind; [apply h_rd_src; lia|intros h]. apply h_pure; intros (dd & <- & _ & ->).
     apply h_ret. intros w HI. split; [|exact HI]. intros _.
     change (zn 4) with 4%nat. rewrite be16_slice4. unfold xtn_len.
@@ -352,7 +385,7 @@ Proof.
                (inuse = false -> hdr_x pkt = 1 -> es = hdr_len pkt + xtn_len pkt) /\
                (inuse = true -> al = false -> es = hdr_len pkt + 4)).
   { subst es. destruct inuse.
-    - destruct (IU eq_refl) as [_ X]. rewrite (XLE eq_refl), X. cbn [Z.eqb Pos.eqb andb].
+    - destruct (IU eq_refl) as (_ & X & _). rewrite (XLE eq_refl), X. cbn [Z.eqb Pos.eqb andb].
       split; [apply u64_range|].
       assert (E : al = false -> u64 (u64 (hdr_len pkt + xtn_len pkt - (xtn_len pkt - 4)) - (if al then hdr_cc pkt * 4 else 0)) = hdr_len pkt + 4).
       { intros ->. rewrite (u64_small (hdr_len pkt + xtn_len pkt - (xtn_len pkt - 4))) by lia. rewrite u64_small by lia. lia. }
@@ -384,16 +417,18 @@ Proof.
   unfold upre_ok. cbn [u_pkt u_enc_start u_enc_len u_inuse u_inplace u_k].
   split; [exact Hp|]. split; [exact V3|]. split; [exact ES1|]. split; [lia|]. split; [lia|]. split; [lia|].
   split; [reflexivity|]. split.
-  - intros ->. destruct (IU eq_refl) as [CX X]. split; [exact X|].
+  - intros ->. destruct (IU eq_refl) as (CX & X & _). split; [exact X|].
     destruct al eqn:EA.
-    + assert (L <= C) by (apply (SPx st Hst CX); left; reflexivity). specialize (X4 X). lia.
+    + assert (L <= C) by (apply (SPx st Hst CX); reflexivity). specialize (X4 X). lia.
     + rewrite (ES4 eq_refl eq_refl) in E2. lia.
   - intros X NK. destruct inuse eqn:EI.
-    + destruct (IU eq_refl) as [CX _].
-      assert (L <= C).
-      { apply (SPx st Hst CX). right. apply Exists_exists. exists k. split; assumption. }
-      specialize (V3 X). lia.
-    + rewrite (ES3 eq_refl X) in E2. lia.
+    + destruct (IU eq_refl) as (CX & _ & PF). destruct al eqn:EA.
+      * left. assert (L <= C) by (apply (SPx st Hst CX); reflexivity). specialize (V3 X). lia.
+      * right. split; [|exact PF].
+        assert (L <= lenZ d0).
+        { apply (SPx st Hst CX); [reflexivity|]. apply Exists_exists. exists k. split; assumption. }
+        specialize (V3 X). lia.
+    + left. rewrite (ES3 eq_refl X) in E2. lia.
 Qed.
 
 Lemma unprotect_post_safe u :
@@ -410,7 +445,9 @@ Proof.
   hseq Kany.
   { destruct (k_xtn_c (u_k u)) as [xk|] eqn:EK; [|hany].
     destruct (hdr_x pkt =? 1) eqn:EX; [|hany]. apply Z.eqb_eq in EX.
-    apply h_process_xtn; [|apply (U9 EX); discriminate]. intros dd _ HCI. exact (HCI EX). }
+    destruct (U9 EX ltac:(discriminate)) as [B|[B PF]].
+    - apply h_process_xtn; [|exact B]. intros dd _ HCI. exact (HCI EX).
+    - apply h_process_xtn_cx; [|exact B|exact PF]. intros dd _ HCI. exact (HCI EX). }
   apply h_bind with (R := fun _ => I Kany).
   { destruct (u_inuse u) eqn:EI; [|hkeep]. destruct (U8 eq_refl) as [X B].
     rewrite U7. hif.
@@ -454,16 +491,21 @@ Proof.
 Qed.
 Print Assumptions protect_no_oob.
 
-(* srtp_unprotect: *out_len only has to hold len - mki - tag octets, but for a stream with
-   cryptex enabled the code works on the packet up to the end of the extension header
-   (in place), resp. the model's RFC 6904 step reads the whole extension block from the
-   destination (out of place, when header-extension encryption is configured as well).
-   The streams of the session are compatible with the buffers when that cannot exceed
-   *out_len: *)
+(* srtp_unprotect: *out_len only has to hold len - mki - tag octets.  For a stream with
+   cryptex enabled two things can reach beyond that:
+   - in place, the cryptex buffer shuffles and the profile restore work on the packet up to
+     the end of the extension header (12 + 4*cc + 4), which an authenticated packet can place
+     beyond len - mki - tag (refuted_inplace below; reproduced against the C library);
+   - out of place with header-extension encryption configured as well, the model's RFC 6904
+     step reads the whole extension block from the destination before it looks at the
+     profile (the C code only computes the end pointer and returns parse_err; this is an
+     over-approximation of the model, refuted_outofplace below).
+   The streams of the session are compatible with the buffers when: *)
 Definition has_xtn_key (st : stream) : Prop := Exists (fun k => k_xtn_c k <> None) (s_keys st).
 Definition cryptex_compat (w : world) : Prop :=
-  session_all (fun st => s_cryptex st = true -> (b_alias (w_b w) = true \/ has_xtn_key st) ->
-                         b_len (w_b w) <= b_cap (w_b w)) (w_s w).
+  session_all (fun st => s_cryptex st = true ->
+                 (b_alias (w_b w) = true -> b_len (w_b w) <= b_cap (w_b w)) /\
+                 (b_alias (w_b w) = false -> has_xtn_key st -> b_len (w_b w) <= lenZ (b_dst (w_b w)))) (w_s w).
 
 Lemma session_all_and (P Q : stream -> Prop) s :
   session_all P s -> session_all Q s -> session_all (fun st => P st /\ Q st) s.
@@ -487,14 +529,17 @@ Theorem unprotect_no_oob w :
 Proof.
   intros HO HL HC HD HA HS HW HX.
   set (SP := fun st => stream_wf st /\
-               (s_cryptex st = true -> (b_alias (w_b w) = true \/ has_xtn_key st) -> b_len (w_b w) <= b_cap (w_b w))).
+               (s_cryptex st = true ->
+                 (b_alias (w_b w) = true -> b_len (w_b w) <= b_cap (w_b w)) /\
+                 (b_alias (w_b w) = false -> has_xtn_key st -> b_len (w_b w) <= lenZ (b_dst (w_b w))))).
   assert (SPc : cfg_closed SP).
   { intros a b E [W X]. split; [exact (stream_wf_cfg a b E W)|].
     destruct E as (K & _ & _ & Y). unfold has_xtn_key. rewrite K, Y. exact X. }
   assert (SPwf : forall st, SP st -> stream_wf st) by (intros st [W _]; exact W).
   assert (SPx : forall st, SP st -> s_cryptex st = true ->
-                b_alias (w_b w) = true \/ Exists (fun k => k_xtn_c k <> None) (s_keys st) ->
-                b_len (w_b w) <= b_cap (w_b w)) by (intros st [_ X]; exact X).
+                (b_alias (w_b w) = true -> b_len (w_b w) <= b_cap (w_b w)) /\
+                (b_alias (w_b w) = false -> Exists (fun k => k_xtn_c k <> None) (s_keys st) ->
+                 b_len (w_b w) <= lenZ (b_dst (w_b w)))) by (intros st [_ X]; exact X).
   eapply hoare_noob; [apply (unprotect_safe SP SPc SPwf _ _ _ _ _ HL HC HD HA HS SPx)| |apply inv_init; [|exact HO]].
   - intros a w' H. exact (inv_noob _ _ _ _ _ _ _ _ H).
   - apply session_all_and; assumption.
@@ -521,8 +566,11 @@ Corollary unprotect_no_oob_full_cap w :
   b_oob (w_b (fst (unprotect w))) = false.
 Proof.
   intros HO HL HC HD HS HW HN. apply unprotect_no_oob; try assumption; [lia|].
-  unfold cryptex_compat. eapply session_all_imp; [|exact HW]. intros st _ _ _. exact HN.
+  unfold cryptex_compat. eapply session_all_imp; [|exact HW]. intros st _ _. split; intros; lia.
 Qed.
+
+Print Assumptions unprotect_no_oob_no_cryptex.
+Print Assumptions unprotect_no_oob_full_cap.
 
 (* ===================================================================== *)
 (* Without cryptex_compat the statement is FALSE for the model.  Two concrete worlds, both
